@@ -274,6 +274,43 @@ Fixpoint warned_by (H : hierarchy) (hs : list handler) (chain : list frame) (c :
       end
   end.
 
+(* ---------------------------------------------------------------- witness statements (used by Properties/C13.v) *)
+(* a deliberate raise that is a controlled error in normal mode but still raises in check mode *)
+Definition raises_in_check_mode (T : tables) (sname : string) (c : cls) : Prop :=
+  exists r, In r (t_raises T) /\ r_site r = sname /\ r_cls r = c /\
+    all_controlled (t_hier T) (route_at T false (r_site r) (r_local r) (mkexn (r_cls r) Deliberate)) = true /\
+    check_quiet T (r_site r) (r_local r) (mkexn (r_cls r) Deliberate) = false.
+
+Definition find_check_leak (T : tables) (sname : string) (c : cls) : option raise_row :=
+  find (fun r => String.eqb (r_site r) sname && String.eqb (r_cls r) c) (check_mode_leaks T).
+
+(* a primitive operation of a reachable function whose runtime exception leaves read_input unconverted *)
+Definition leaks_primitive (T : tables) (sname fn : string) (k : prim) (c : cls) : Prop :=
+  exists p, In p (t_prims T) /\ p_site p = sname /\ p_fn p = fn /\ p_kind p = k /\
+    In c (prim_classes k) /\
+    all_controlled (t_hier T) (route_at T false (p_site p) (p_local p) (mkexn c Primitive)) = false.
+
+Definition prim_eqb (a b : prim) : bool :=
+  match a, b with
+  | IntConv, IntConv | FloatConv, FloatConv | Subscript, Subscript | NumLookup, NumLookup | Unpack, Unpack
+  | OptAttr, OptAttr | EnumConv, EnumConv | Assert, Assert | Next, Next | Lex, Lex => true
+  | _, _ => false
+  end.
+
+Definition find_prim_leak (T : tables) (sname fn : string) (k : prim) (c : cls) : option prim_row :=
+  find (fun p => String.eqb (p_site p) sname && String.eqb (p_fn p) fn && prim_eqb (p_kind p) k
+                 && mem c (prim_classes k)
+                 && negb (all_controlled (t_hier T) (route_at T false (p_site p) (p_local p) (mkexn c Primitive))))
+       (t_prims T).
+
+(* rows NOT among the witnesses (for the satisfiability examples) *)
+Definition find_quiet_raise (T : tables) (sname : string) (c : cls) : option raise_row :=
+  find (fun r => String.eqb (r_site r) sname && String.eqb (r_cls r) c
+                 && all_controlled (t_hier T) (route_at T false (r_site r) (r_local r) (mkexn (r_cls r) Deliberate))
+                 && check_quiet T (r_site r) (r_local r) (mkexn (r_cls r) Deliberate)) (t_raises T).
+Definition find_guarded_prim (T : tables) (sname : string) (k : prim) : option prim_row :=
+  find (fun p => String.eqb (p_site p) sname && prim_eqb (p_kind p) k && negb (prim_leaks_row T p)) (t_prims T).
+
 (* ---------------------------------------------------------------- parse_input as a sequence of events *)
 (* an event: something runs at a site (below the local try statements) and raises, or not *)
 Record event := mkevent { ev_chain : list frame; ev_exn : option exn }.
